@@ -124,7 +124,7 @@ def ref_params(func, p):
 
 
 def cases(rng, thorough):
-    for code in (0, 0x10, 0x20, 0x30, 0x40, 0x50, 0x60, 1, 255, 256, 65535):
+    for code in (0, 0x10, 0x20, 0x30, 0x40, 0x50, 0x60, 1, 255, 256, 65535, 65536, 0x12345, -1):
         yield 0x00, {"code": code}
     sizes = list(range(0, 41)) if thorough else [0, 1, 2, 3, 10, 39, 40]
     for func in (0x01, 0x03):
@@ -144,8 +144,10 @@ def cases(rng, thorough):
     for ip, port in itertools.product(IPS, PORTS):
         yield 0x04, {"addr": (ip, port), "npdu": b"\x01\x00"}
         yield 0x08, {"addr": (ip, port)}
-    for ttl in (0, 1, 30, 255, 256, 65534, 65535):
+    for ttl in (0, 1, 30, 255, 256, 65534, 65535, 65536, 70000):
         yield 0x05, {"ttl": ttl}
+    yield 0x07, {"fdt": [("10.0.0.1", 47808, 65535, 65540)]}       # what a BBMD holds for a registration with TTL 65535 (TTL + 5)
+    yield 0x07, {"fdt": [("10.0.0.1", 47808, 65536, 1)]}
     for k in sizes:
         yield 0x07, {"fdt": [(rng.choice(IPS), rng.choice(PORTS), rng.choice([0, 1, 300, 65535]), rng.choice([0, 1, 330, 65535]))
                              for _ in range(k)]}
@@ -153,13 +155,23 @@ def cases(rng, thorough):
 
 def check_outbound(run, func, p):
     wit = {"function": func, "params": repr(p)[:200]}
-    want = W.bvlc_build(func, W.bvlc_body(func, p))
+    try:
+        want = W.bvlc_build(func, W.bvlc_body(func, p))
+    except struct.error:
+        want = None                 # a parameter that does not fit its field: the frame cannot be built
     del BOTTOM.sent[:]
     try:
         msg = build(func, p)
         CODEC.indication(msg)
     except Exception as err:
+        if want is None:
+            run.count("unrepresentable_parameters_refused")
+            return None
         run.violation("bvll-encode-raised/func%d/%s" % (func, type(err).__name__), dict(wit, error=repr(err)[:120]))
+        return None
+    if want is None:
+        got = bytes(BOTTOM.sent[0].pduData) if BOTTOM.sent else b""
+        run.violation("parameter-that-does-not-fit-its-field-encoded/func%d" % func, dict(wit, frame=got[:24]))
         return None
     if len(BOTTOM.sent) != 1:
         run.violation("codec-sent-%d-frames" % len(BOTTOM.sent), wit)
@@ -342,6 +354,71 @@ def check_inbound(run, o):
         run.violation("refusal-is-not-a-decoding-error/%s/%s" % (why, st), wit)
 
 
+def check_loopback(run, rng):
+    """the same frames through a real UDP socket on the loopback interface and the library's UDPDirector below the codec: a
+    datagram arrives whole (a Forwarded-NPDU is up to 1507 octets), and one that is longer than its length field says is
+    refused like anywhere else.  Wall-clock bounded; when no socket can be bound this section is skipped and says so"""
+    import socket
+    import time
+    import asyncore
+    from bacpypes.bvllservice import UDPMultiplexer
+    from bacpypes import core
+    director = None
+    for port in (47999, 48123, 50111, 51999):
+        try:
+            director = UDPMultiplexer(Address("127.0.0.1:%d" % port), noBroadcast=True)
+            break
+        except Exception as err:
+            run.seen("loopback_bind_errors", type(err).__name__)
+    if director is None:
+        run.count("loopback_unavailable")
+        return
+    top, codec = Top(), AnnexJCodec()
+    bind(top, codec, director.annexJ)
+    sock = socket.socket(socket.AF_INET, socket.SOCK_DGRAM)
+    try:
+        sock.bind(("127.0.0.1", 0))
+        cases = []
+        for ln in (0, 1, 1400, 1490, 1491, 1492, 1493, 1496, 1497):
+            data = bytes((i * 11 + ln) & 0xFF for i in range(ln))
+            cases.append((0x04, {"addr": ("10.1.2.3", 47808), "npdu": data}))
+            cases.append((rng.choice([0x09, 0x0A, 0x0B]), {"npdu": data}))
+        cases.append((0x03, {"bdt": [("10.0.0.%d" % k, 47808, 0xFFFFFFFF) for k in range(40)]}))
+        sent = []
+        for func, p in cases:
+            o = W.bvlc_build(func, W.bvlc_body(func, p))
+            sock.sendto(o, ("127.0.0.1", port))
+            sent.append((func, p, o, True))
+        # over-long datagrams whose length field is smaller than the datagram: not a frame
+        for ln, extra in ((1497, 1), (1497, 40), (100, 2)):
+            o = W.bvlc_build(0x0A, bytes(ln)) + bytes(extra)
+            sock.sendto(o, ("127.0.0.1", port))
+            sent.append((0x0A, None, o, False))
+        t0 = time.time()
+        want_n = sum(1 for x in sent if x[3])
+        while time.time() - t0 < 3.0 and len(top.got) < want_n:
+            asyncore.loop(timeout=0.02, count=1)
+            core.run_once()
+        time.sleep(0.05)
+        asyncore.loop(timeout=0.02, count=1)
+        core.run_once()
+    finally:
+        sock.close()
+        director.close_socket()
+    run.count("loopback_datagrams_sent", len(sent))
+    got = [params_of(m) for m in top.got]
+    wants = [ref_params(func, p) for func, p, o, ok in sent if ok]
+    run.count("loopback_frames_delivered", len(got))
+    run.case(("loopback", len(sent)), sample={"loopback_datagram_sizes": sorted({len(o) for f, p, o, ok in sent})})
+    if got != wants:
+        missing = [(w["func"], len(w.get("npdu", b""))) for w in wants if w not in got]
+        extra = [(g["func"], len(g.get("npdu", b""))) for g in got if g not in wants]
+        if extra and not missing:
+            run.violation("frame-with-wrong-length-delivered/udp", {"delivered_(function, payload octets)": extra[:4]})
+        else:
+            run.violation("datagram-not-delivered-whole/udp", {"missing_(function, payload octets)": missing[:6], "unexpected": extra[:4]})
+
+
 def main():
     run = Run("C09", "exploration", RULE, assumptions=[
         "rv/wire.py bvlc_build/bvlc_parse transcribe Annex J.2.1-J.2.12",
@@ -370,6 +447,8 @@ def main():
             check_staged(run, func, p, rng)
             if len(o) < 64:
                 valid.append(o)
+    if run.shard[0] == 0:
+        check_loopback(run, rng)
     # inbound: all function codes with plausible bodies
     for func in range(256):
         for body in (b"", b"\x00\x00", bytes(6), bytes(10), bytes(20), b"\x01\x00\x10\x08"):
